@@ -6,7 +6,7 @@ from cachekey_lib import *
 META = {
     "technique": "Lean 4 theorems over a model of device::applyDependencyHash, dependency recording and cache lookup (parameters: hash, JSON encoder, hash rendering, directory naming, include scanner, compiler); histories of header edits interleaved with real builds, every build in a fresh process sharing one cache directory, compared with the model instantiated with the exact hash_t / json-dump models and judged by an independent include expander",
     "category": "proof",
-    "level_text": "Proof over all finite histories of file writes/removals and builds from an empty cache: the key resolution terminates within (number of cache entries + 1) steps for EVERY hash function (C07_resolve_terminates); with injective hash/encoder/rendering/directory naming it never reports a chain error (C07_no_chain_error), a cache hit means every recorded dependency still has its recorded hash and runs exactly the binary the compiler would produce now from the configuration and the current contents of all transitively included files (C07_hit_is_fresh), and every completed build, hit or miss, is current (C07_every_build_current); the same with the encoder instantiated by the model of json::dumpToString, whose injectivity is proved on well-formed values (C07_every_build_current_dump); the historical xor chaining diverges for every hash function (C07_fold_chaining_diverges). Tied to the code by the regenerated chain shape (combinator, rendering, loop, visited guard: C07_table_shape) and by real multi-process build histories (content change, include added/removed, revert, two headers made equal, two headers swapped, file removed/restored) whose kernel outputs must encode the current #defines of all headers and whose hit/miss and exact 256-bit key must agree with the model; a hang or crash of a build is a violation.",
+    "level_text": "Proof over all finite histories of file writes/removals and builds from an empty cache: the key resolution terminates within (number of cache entries + 1) steps for EVERY hash function (C07_resolve_terminates); with injective hash/encoder/rendering/directory naming it never reports a chain error (C07_no_chain_error), a cache hit means every recorded dependency still has its recorded hash and runs exactly the binary the compiler would produce now from the configuration and the current contents of all transitively included files (C07_hit_is_fresh), and every completed build, hit or miss, is current (C07_every_build_current); the same with the encoder instantiated by the model of json::dumpToString, whose injectivity is proved on well-formed values (C07_every_build_current_dump); without assuming an injective hash: a stale, wrongly rejected or chain-failing build needs a collision of the hash function or of the 16-character directory names (C07_stale_build_needs_collision, and C07_exact_stale_build_needs_collision for the exact hash_t/dump model with the driver's include scanner); the historical xor chaining diverges for every hash function (C07_fold_chaining_diverges). Tied to the code by the regenerated chain shape (combinator, rendering, loop, visited guard: C07_table_shape) and by real multi-process build histories (content change, include added/removed, revert, two headers made equal, two headers swapped, file removed/restored) whose kernel outputs must encode the current #defines of all headers and whose hit/miss and exact 256-bit key must agree with the model; a hang or crash of a build is a violation.",
     "level_note": "Trusted: Lean kernel; translate/gen_cachekey.py; the hand-written model of the loop, of dependency recording and of the build pipeline (validated per build: hit/miss, exact 256-bit key, and the predicted closure mapped to kernel outputs); the compiler as a deterministic function of (key-relevant configuration, expansion); hash / directory-name injectivity are idealisations (64-bit directory names); scope: OKL builds (okl/enabled) with strict headers, files edited between — not during — builds, builds that run to completion (crashes: C08), headers resolved by the OKL preprocessor (kernels built with okl/enabled false, and headers only the C++ compiler finds, are not tracked by occa: known finding C07-K1, replayed on every run).",
     "design_ref": "DESIGN.md section 4, C07",
 }
@@ -277,6 +277,8 @@ def run_history(ck, hb, db, lanes, mode, ops, tag, per_build_timeout):
                 fails.append(("%s: model and implementation disagree: impl=%s model=%s" % (where, line[:100], mline[:100]), False))
         else:
             fails.append(("%s: unexpected harness output %r %s" % (where, line[:120], se[-120:]), True))
+    if not fails:
+        shutil.rmtree(work, ignore_errors=True)
     return fails, stats, text
 
 
@@ -333,7 +335,7 @@ def main(argv):
         jobs = [(("serial", "openmp")[i % 2], ops, "%d-c%d" % (ck.seed, i)) for i, ops in enumerate(CORPUS if ck.tier != "quick" else CORPUS[:3] + CORPUS[4:5])]
         jobs += [(ck.rng.choice(["serial", "openmp"]), gen_history(ck.rng, ck.rng.randint(3, nb)), "%d-%d" % (ck.seed, i)) for i in range(nh)]
         jobs += [("serial", ops, "%d-k%d" % (ck.seed, i)) for i, ops in enumerate(KNOWN_REPLAYS)]
-    tmo = 180
+    tmo = 300 if ck.tier == "quick" else 600
     tot = {"builds": 0, "hits": 0, "miss": 0, "errors": 0}
     nontriv = 0
     with concurrent.futures.ThreadPoolExecutor(max_workers=6) as ex:
